@@ -53,6 +53,8 @@ type Program struct {
 	// Renames lists the symbols that were read under their reference names (rename.go)
 	Renames []string
 
+	inserters map[*ssa.Function]bool // tableInserters cache
+
 	byPath map[string]*packages.Package
 	cgVTA  *callgraph.Graph
 	cgCHA  *callgraph.Graph
